@@ -1,37 +1,60 @@
 /-
   C07 / T1c — the model's `Scaffold.appendRows` IS the source's `Scaffold.append_scaffold` (assembly/scaffold.py) as translated
   by `harness/translate_imp.py` into `Gen.Imp.Scaffold_append_scaffold`.  Helper lemma: Proofs/ImpSmall.lean.
+
+  `gap` is typed as Python uses it: whatever row object the caller passes (a Gap in `scaffolds_fused_by_name` before any left-over,
+  possibly the re-bound loop variable afterwards), or None.
 -/
 import AgpTpf.Gen.Imp
 import AgpTpf.Proofs.ImpSmall
 namespace AgpTpf.C07
 open AgpTpf
 
-/-- `append_scaffold` never raises, changes only `self.rows`, and the new rows are the model's `appendRows` -/
-theorem append_scaffold_is_source (s othr : Scaffold) (gap : Option Gap) :
-    Gen.Imp.Scaffold_append_scaffold s othr gap = .ok { s with rows := Scaffold.appendRows s.rows othr.rows gap } := by
+/-- `append_scaffold(othr, gap)` for an ARBITRARY row object `gap` (or None): never raises, changes only `self.rows`; the gap row goes
+    in exactly when there is one and `self` already has rows; then come the rows of `othr` -/
+theorem append_scaffold_is_source (s othr : Scaffold) (gap : Option Row) :
+    Gen.Imp.Scaffold_append_scaffold s othr gap
+      = .ok { s with rows := (match gap with
+                              | some r => if s.rows.isEmpty then s.rows else s.rows ++ [r]
+                              | none => s.rows) ++ othr.rows } := by
   unfold Gen.Imp.Scaffold_append_scaffold
   cases gap with
   | none => rfl
-  | some g =>
-    rw [ImpSmall.appendRows_some]
-    cases h : (!s.rows.isEmpty) <;> simp [bind, Except.bind]
+  | some r => cases h : s.rows.isEmpty <;> simp [bind, Except.bind]
+
+/-- the corollary for a Gap (what the model's `appendRows` is about): the new rows are the model's `appendRows` -/
+theorem append_scaffold_gap_is_source (s othr : Scaffold) (g : Option Gap) :
+    Gen.Imp.Scaffold_append_scaffold s othr (g.map Row.gap) = .ok { s with rows := Scaffold.appendRows s.rows othr.rows g } := by
+  rw [append_scaffold_is_source, ← ImpSmall.appendRowsRow_gap]
+  cases g with
+  | none => rfl
+  | some g => exact congrArg (fun r => Except.ok { s with rows := r }) (ImpSmall.appendRowsRow_eq s.rows othr.rows (some (Row.gap g))).symm
 
 /-- the generated function runs: a join gap goes between two non-empty scaffolds … -/
 example :
     Gen.Imp.Scaffold_append_scaffold
       { name := ['a'], rows := [.frag { name := ['c'], start := 1, stop := 5, strand := 1 }], rank := 3 }
       { name := ['b'], rows := [.frag { name := ['d'], start := 2, stop := 9, strand := -1 }] }
-      (some { length := 200, gapType := ['s'] })
+      (some (.gap { length := 200, gapType := ['s'] }))
     = .ok { name := ['a'], rank := 3,
             rows := [.frag { name := ['c'], start := 1, stop := 5, strand := 1 }, .gap { length := 200, gapType := ['s'] },
                      .frag { name := ['d'], start := 2, stop := 9, strand := -1 }] } := by rfl
 
-/-- … and is dropped when `self` has no rows yet -/
+/-- … and is dropped when `self` has no rows yet … -/
 example :
     Gen.Imp.Scaffold_append_scaffold { name := ['a'] }
       { name := ['b'], rows := [.frag { name := ['d'], start := 2, stop := 9, strand := -1 }] }
-      (some { length := 200, gapType := ['s'] })
+      (some (.gap { length := 200, gapType := ['s'] }))
     = .ok { name := ['a'], rows := [.frag { name := ['d'], start := 2, stop := 9, strand := -1 }] } := by rfl
+
+/-- … and `gap` need not be a Gap: any row object is inserted as it is -/
+example :
+    Gen.Imp.Scaffold_append_scaffold
+      { name := ['a'], rows := [.frag { name := ['c'], start := 1, stop := 5, strand := 1 }] }
+      { name := ['b'], rows := [.frag { name := ['d'], start := 2, stop := 9, strand := -1 }] }
+      (some (.frag { name := ['x'], start := 1, stop := 2, strand := 1 }))
+    = .ok { name := ['a'],
+            rows := [.frag { name := ['c'], start := 1, stop := 5, strand := 1 }, .frag { name := ['x'], start := 1, stop := 2, strand := 1 },
+                     .frag { name := ['d'], start := 2, stop := 9, strand := -1 }] } := by rfl
 
 end AgpTpf.C07
